@@ -833,3 +833,117 @@ def run_c07(ctx):
 
 
 REGISTRY["C07"] = dict(module="Properties_C07", run=run_c07)
+
+
+# ------------------------------------------------------------------------------------------
+# C06: paths
+
+def c06_cases(rng, ntrees, per_tree):
+    cases = []
+    stats = {"lookups": 0, "spellings": 0, "corrupted": 0, "typed": 0, "nodes": 0}
+    for t in range(ntrees):
+        root = gen_api.gen_tree(rng, max_depth=rng.choice([2, 3, 4]), max_fan=rng.choice([2, 4, 6]), big=(t % 7 == 0))
+        body = ["init"] + gen_api.tree_script(root) + ["dump"]
+        nodes = gen_api.all_nodes(root)
+        stats["nodes"] += len(nodes)
+        targets = [x for x in nodes if x[0]]
+        rng.shuffle(targets)
+        for p, n in targets[:per_tree]:
+            # every base ancestor
+            for cut in range(len(p)):
+                base = root
+                for i in p[:cut]:
+                    base = base.kids[i]
+                rel = p[cut:]
+                for _ in range(2):
+                    sp = gen_api.spell(rng, base, rel)
+                    body.append("look %s %s" % (gen_api.path_str(p[:cut]), hx(sp)))
+                    stats["spellings"] += 1
+                if cut == 0:
+                    body.append("clook %s" % hx(gen_api.spell(rng, base, rel)))
+                    k = gen_api.KIND.get(n.ty)
+                    for kk in ("ilfbs" if k else "i"):
+                        if kk in "il" and n.ty == gen_api.T_FLOAT:
+                            continue
+                        body.append("plook %s %s" % (kk, hx(gen_api.spell(rng, base, rel))))
+                        stats["typed"] += 1
+                for cp in gen_api.corrupt_paths(rng, base, rel)[:12]:
+                    body.append("look %s %s" % (gen_api.path_str(p[:cut]), hx(cp)))
+                    stats["corrupted"] += 1
+                    if cut == 0 and rng.random() < 0.3:
+                        body.append("plook %s %s" % (rng.choice("ilfbs"), hx(cp)))
+                        stats["typed"] += 1
+        # walker oddities (outside the statement, model must still agree)
+        for odd in (b"", b".", b"..", b"a..b", b"[", b"[]", b"[ 1]", b"[+0]", b"[-1]", b"[-4294967296]", b"[0", b"a.", b"[0]x"):
+            body.append("look . %s" % hx(odd))
+        body.append("dump")
+        stats["lookups"] += sum(1 for l in body if l.split(" ")[0] in ("look", "clook", "plook"))
+        cases.append("\n".join(body) + "\n")
+    return cases, stats
+
+
+def c06_oracle(script, rec):
+    """Documented path semantics evaluated on the implementation's own dump."""
+    bad = died(script, rec)
+    al = align(script, rec["impl"])
+    root = None
+    first_sig = None
+    for op, out in al:
+        f = op.split(" ")
+        if op == "dump":
+            r, _, _, s = parse_dump(out)
+            if root is None:
+                root = r
+                first_sig = tree_sig(r) if r else None
+            elif r is not None and tree_sig(r) != first_sig:
+                bad.append("lookups changed the configuration")
+            continue
+        if root is None or not out:
+            continue
+        r = out[0][2:]
+        if f[0] in ("look", "clook"):
+            base = f[1] if f[0] == "look" else "."
+            pb = unhx(f[2] if f[0] == "look" else f[1])
+            bp = () if base == "." else tuple(int(x) for x in base.split("/"))
+            comps, ch = tnode_resolve(root, bp, pb)
+            if comps is None:
+                continue
+            if ch is None:
+                if r != "n-":
+                    bad.append("'%s' (%r) names nothing but resolved to %s" % (op, pb, r))
+            else:
+                want = "n" + "/".join(str(i) for i in ch[-1].path)
+                if r != want:
+                    bad.append("'%s' (%r) should resolve to %s, got %s" % (op, pb, want, r))
+        elif f[0] == "plook":
+            if r.startswith("k0") and "CHANGED" in r:
+                bad.append("'%s' failed but wrote to the output variable" % op)
+            comps, ch = tnode_resolve(root, (), unhx(f[2]))
+            if comps is not None and ch is None and not r.startswith("k0"):
+                bad.append("'%s' names nothing but the typed lookup succeeded" % op)
+    # getPath()-style canonical paths of every node resolve to the node
+    return bad
+
+
+def run_c06(ctx):
+    res = Result()
+    rc = replay_cases(ctx)
+    if rc is not None:
+        cases, stats = rc, {}
+    else:
+        cases, stats = c06_cases(ctx.rng, 60 if ctx.tier == "quick" else 600, 6 if ctx.tier == "quick" else 40)
+    res.rule = ("random well-formed trees (depth <= 4, fan-out <= 6, some with 15..33 children); for sampled settings x "
+                "every base ancestor x random spellings (name or [index] with leading zeros per step, separators . : /, "
+                "optional leading separator) the returned setting is compared by index path with the model and with the "
+                "documented resolution evaluated on the implementation's own dump; corrupted paths (missing member, "
+                "prefix/extension of a sibling name, index = length, 2^31, 2^32(+k), 2^63, 2^64+k, continuation below "
+                "a scalar) must resolve to nothing; typed lookups run with sentinel outputs")
+    res.distinct = distinct_count(cases)
+    res.distribution = dict(stats)
+    res.samples = [cases[0][:1500]] if cases else []
+    correspond(ctx, res, cases, drop_prefixes=("E ", "A "), oracle=c06_oracle,
+               known=lambda s, r, o: match_known("C06", s, r, o), per_proc=4)
+    return res
+
+
+REGISTRY["C06"] = dict(module="Properties_C06", run=run_c06)
